@@ -5,21 +5,24 @@
 
   Layout:
    1. the generic theorem about byte machines (+ a toy machine as non-vacuity witness);
-   2. liblzma's small resumable coders as INSTANCES of it (VLI decoder, `lzma_bufcpy` field reader, LZMA2 chunk-header machine,
+   2. liblzma's small resumable coders as INSTANCES of it (VLI decoder and encoder, `lzma_bufcpy` field reader, LZMA2 chunk-header machine,
       Index decoder): call-by-call simulation by a byte machine, hence independence of ARBITRARY slicings, and what every
-      slicing computes; delta (reading the caller's input, and behind any next coder, both directions); `lzma_vli_encode`;
+      slicing computes; delta (reading the caller's input, and behind any next coder, both directions);
    3. `simple_code()`: slicing theorem for every filter with the BCJ contract; the contract PROVED for the eight real filters
       (bridge to C15); equivalence with the model C15 ties to the C code; the theorem for that model with no hypothesis left;
+      and `simple_code()` behind ANY byte-machine next coder that does not fail (the BCJ decoder configuration);
    4. threaded encoder: output bytes are a function of (input, block size, flush offsets, filter updates) — from C08.
   NOT covered by any theorem here (C-vs-C slicing oracle of tools/props/c06.py only): the LZMA symbol decoder's resume points,
-  the LZ window, the LZMA/LZMA2 encoders and `fill_window`, the container coders built from them, `simple_code()` behind a
-  real (non-pass-through) next coder.
+  the LZ window, the LZMA/LZMA2 encoders and `fill_window`, the container coders built from them, the error path of
+  `simple_code()` when its next coder fails (there only status and consumed count are slicing independent in the C code).
 -/
 import XzVerif.Lemmas.Coder
 import XzVerif.Lemmas.CoderSmall
 import XzVerif.Lemmas.CoderSimple
 import XzVerif.Lemmas.CoderMachines
+import XzVerif.Lemmas.CoderVliEnc
 import XzVerif.Lemmas.CoderBcjRun
+import XzVerif.Lemmas.CoderSimpleNext
 import XzVerif.Lemmas.MtEncChain
 
 namespace XzVerif.C06
@@ -186,46 +189,24 @@ example : (fun r : Run (Nat × Nat) => (r.ret, r.state.1, r.consumed, r.settled)
 example : (fun r : Run (Nat × Nat) => (r.ret, r.consumed))
     (runSliced vliDecCoder true [(2, 0), (5, 0)] (Run.init (0, 0) [0x85, 0x80, 0x00])) = (.dataError, 3) := by decide +kernel
 
-/-- `lzma_vli_encode` with a persistent `vli_pos`: writing into one window of `c₁ + c₂` bytes = writing into a window of `c₁` bytes
-    and, if that returned `LZMA_OK` (window full), continuing with the carried `vli_pos` into a window of `c₂` bytes: same final
-    return code, same final `vli_pos`, and the bytes concatenate. (A window of size 0 is answered with `LZMA_BUF_ERROR` and changes
-    nothing.) -/
-theorem vli_encode_chunked (v c₁ c₂ : Nat) (hv : v ≤ VLI_MAX) (h₁ : 0 < c₁) (h₂ : 0 < c₂) :
-    vliEncodeMulti v 0 (c₁ + c₂) =
-      if (vliEncodeMulti v 0 c₁).1 = .ok then
-        ((vliEncodeMulti v (vliEncodeMulti v 0 c₁).2.1 c₂).1, (vliEncodeMulti v (vliEncodeMulti v 0 c₁).2.1 c₂).2.1,
-          (vliEncodeMulti v 0 c₁).2.2 ++ (vliEncodeMulti v (vliEncodeMulti v 0 c₁).2.1 c₂).2.2)
-      else vliEncodeMulti v 0 c₁ := by
-  have e0 : ∀ c, 0 < c → vliEncodeMulti v 0 c = vliEncLoop c v 0 := by
-    intro c hc
-    have : c ≠ 0 := by omega
-    have hv' : ¬ v > VLI_MAX := by omega
-    simp [vliEncodeMulti, this, VLI_BYTES_MAX, hv']
-  rw [e0 _ (by omega), e0 _ h₁, vliEncLoop_append _ _ _ _ h₁ h₂]
-  split
-  · rename_i hok
-    obtain ⟨i1, _, i3⟩ := vliEncLoop_ok c₁ v 0 hok h₁
-    have hlt : c₁ < 9 := by
-      by_cases h9 : c₁ < 9
-      · exact h9
-      · exfalso
-        have : 128 ^ 9 ≤ 128 ^ c₁ := Nat.pow_le_pow_right (by omega) (by omega)
-        have hm : v < 128 ^ 9 := by simp [VLI_MAX] at hv; omega
-        omega
-    have e1 : vliEncodeMulti v (vliEncLoop c₁ v 0).2.1 c₂ = vliEncLoop c₂ (v / 128 ^ c₁) (0 + c₁) := by
-      rw [i1]
-      have hc2 : c₂ ≠ 0 := by omega
-      have hv' : ¬ v > VLI_MAX := by omega
-      have hp : ¬ (0 + c₁ ≥ VLI_BYTES_MAX) := by simp [VLI_BYTES_MAX]; omega
-      have hs : v >>> ((0 + c₁) * 7) = v / 128 ^ c₁ := by
-        rw [Nat.shiftRight_eq_div_pow, Nat.zero_add, Nat.mul_comm, Nat.pow_mul]
-      simp only [vliEncodeMulti, hc2, if_false, hp, hv', or_self, hs]
-    rw [e1]
-  · rfl
+/-- `lzma_vli_encode` in multi-call mode (`vli_pos` persists; no input): byte machine "emit the next base-128 digit with continuation bit,
+    the last one without, then `LZMA_STREAM_END`". `live` = `vli_pos < 9`; `v ≤ LZMA_VLI_MAX` is the other half of the argument check. -/
+theorem vli_encoder_refines (v : Nat) (hv : v ≤ VLI_MAX) : Sim (vliEncCoder v) (vliEncMachine v) VliE.abs VliE.live := vliEnc_sim v hv
 
-example : vliEncodeMulti 123456789 0 9 = (.streamEnd, 4, [0x95, 0x9A, 0xEF, 0x3A]) := by decide +kernel
-example : vliEncodeMulti 123456789 0 1 = (.ok, 1, [0x95]) := by decide +kernel
-example : vliEncodeMulti 123456789 1 8 = (.streamEnd, 4, [0x9A, 0xEF, 0x3A]) := by decide +kernel
+/-- Any sequence of output windows (any sizes, zero included) that ends settled has written exactly the specification encoding
+    `Vli.vliEncode v` (Model/Vli.lean) and ended with `LZMA_STREAM_END`, `vli_pos` = the number of bytes. -/
+theorem vli_encoder_sliced_eq_whole (v : Nat) (hv : v ≤ VLI_MAX) (input : List UInt8) (fin : Bool) (sl : List (Nat × Nat)) :
+    let R := runSliced (vliEncCoder v) fin sl (Run.init 0 input)
+    R.settled = true → R.out = vliEncode v ∧ R.ret = .streamEnd ∧ R.consumed = 0 ∧ R.state = (vliEncode v).length :=
+  vliEnc_sliced_eq_whole v hv input fin sl
+
+/-- non-vacuity: 123456789 through windows of 1, 0, 2, 0, 1, 5 bytes and through one window of 9 -/
+example : (fun r : Run Nat => (r.out, r.ret, r.state, r.settled))
+    (runSliced (vliEncCoder 123456789) true [(0, 1), (0, 0), (0, 2), (0, 0), (0, 1), (0, 5)] (Run.init 0 []))
+    = ([0x95, 0x9A, 0xEF, 0x3A], .streamEnd, 4, true) := by decide +kernel
+example : (fun r : Run Nat => (r.out, r.ret, r.state, r.settled))
+    (runSliced (vliEncCoder 123456789) true [(0, 9)] (Run.init 0 [])) = ([0x95, 0x9A, 0xEF, 0x3A], .streamEnd, 4, true) := by
+  decide +kernel
 
 /-- The `lzma_bufcpy` field reader (`coder->pos` into a buffer of `size` bytes; Stream Header/Footer, Block Header, `rc_read_init`, …)
     is the byte machine "read until `size` bytes are there". -/
@@ -470,6 +451,65 @@ example : (XzVerif.Simple.filterCode .x86 true Bcj.X86State.init 0#32 [0xE8, 0xE
 example : (runSliced (simpleCoder (testFilter 4 true) (Src.null true) 8) true [(3, 2), (1, 1), (0, 5), (2, 0), (5, 3), (9, 2), (9, 9)]
       (Run.init (Simple.init 0 ()) [0, 1, 2, 3, 4, 5, 6, 7, 8, 9, 10])).out
     = (testFilter 4 true 0 [0, 1, 2, 3, 4, 5, 6, 7, 8, 9, 10]).1 := by decide +kernel
+
+/-! ### `simple_code()` behind a real next coder (the BCJ *decoder* configuration) -/
+
+/-- **`simple_code()` ∘ next coder, any slicing, any filter with the contract, ANY byte machine as next coder** (`next.code != NULL`: e.g.
+    BCJ decoder after the LZMA2 decoder). `simple_code()` hands the caller's input to the next coder but gives it its own output windows
+    (the rest of `out[]`, then the rest of `coder->buffer[]`) — it re-slices the next coder's output. `hb`: on this input the next coder
+    writes fewer than `lim` bytes (`lim` = length limit of the filter's prefix stability). After any slicing the next coder is at a
+    point `D` of its single trace (`Reach`), `simple_code()`'s output is a prefix of the filter applied to `D`, the return code is
+    `LZMA_OK` or `LZMA_STREAM_END`, and at `LZMA_STREAM_END` the next coder has returned `LZMA_STREAM_END` and the output is the filter
+    applied once to everything it wrote.
+    Limitation of the model (`Src` has no error channel): a next coder that FAILS makes the C function return at once with unfiltered
+    bytes in `out[]`; that path is not modelled (the oracle compares only status and consumed count there). -/
+theorem simple_behind_next_slicing {φ μ : Type} {F : Filter φ} {umax lim : Nat} (hF : BcjContract F umax lim) (m : ByteMachine μ) (s₀ : μ)
+    (input : List UInt8) (fin : Bool) (allocated : Nat) (φ₀ : φ) (sl : List (Nat × Nat))
+    (hb : ∀ D st eof rest, Reach m fin s₀ false input D st eof rest → D.length < lim) :
+    let R := runSliced (simpleCoder F (machineSrc m) allocated) fin sl (Run.init (Simple.init φ₀ (s₀, false)) input)
+    (∃ D, Reach m fin s₀ false input D R.state.next.1 R.state.next.2 R.rest ∧ ∃ o, (F φ₀ D).1 = R.out ++ o)
+      ∧ R.consumed + R.rest.length = input.length
+      ∧ (R.ret = .streamEnd → ∃ Xf, Reach m fin s₀ false input Xf R.state.next.1 R.state.next.2 R.rest
+            ∧ m.step R.state.next.1 = .done .streamEnd ∧ R.out = (F φ₀ Xf).1)
+      ∧ (R.ret = .ok ∨ R.ret = .streamEnd) :=
+  simple_behind_machine hF m s₀ input fin allocated φ₀ sl hb
+
+/-- With the eight real filters (either direction; the decoder is the one that occurs): two slicings that both reach `LZMA_STREAM_END`
+    have written the same bytes and consumed the same input, whatever byte machine the next coder is. -/
+theorem simple_behind_next_two_slicings_bcj {μ : Type} (id : XzVerif.Simple.FilterId) (enc : Bool) (lim : Nat)
+    (hx : id = .x86 → lim + 5 ≤ 2 ^ 32) (m : ByteMachine μ) (s₀ : μ) (input : List UInt8) (fin : Bool) (off : BitVec 32)
+    (sl₁ sl₂ : List (Nat × Nat)) (hb : ∀ D st eof rest, Reach m fin s₀ false input D st eof rest → D.length < lim) :
+    let c := simpleCoder (CoderBcj.bcjFilter id enc) (machineSrc m) (2 * id.unfilteredMax)
+    let R₁ := runSliced c fin sl₁ (Run.init (Simple.init (Bcj.X86State.init, off) (s₀, false)) input)
+    let R₂ := runSliced c fin sl₂ (Run.init (Simple.init (Bcj.X86State.init, off) (s₀, false)) input)
+    R₁.ret = .streamEnd → R₂.ret = .streamEnd → R₁.out = R₂.out ∧ R₁.consumed = R₂.consumed :=
+  simple_behind_machine_two (CoderBcj.bcj_contract id enc lim hx) m s₀ input fin _ _ sl₁ sl₂ hb
+
+/-- non-vacuity: the real x86 DEcoder behind the run-length decoder `rle` of section 1 as next coder; the RLE stream expands to C15's
+    encoded example; whole vs. a ragged slicing with tiny output windows: both `LZMA_STREAM_END`, both the decoded original -/
+example : (fun r : Run (Simple CoderBcj.FState (RleState × Bool)) => (r.out, r.ret, r.consumed))
+    (runSliced (simpleCoder (CoderBcj.bcjFilter .x86 false) (machineSrc rle) 10) true [(100, 100), (100, 100)]
+      (Run.init (Simple.init (Bcj.X86State.init, 0#32) (RleState.idle, false)) [2, 0xE8, 1, 0x05, 1, 0x00, 1, 0x01, 1, 0x00, 4, 9]))
+    = ([0xE8, 0xE8, 0xFA, 0xFF, 0xFE, 0x00, 9, 9, 9, 9], .streamEnd, 12) := by decide +kernel
+example : (fun r : Run (Simple CoderBcj.FState (RleState × Bool)) => (r.out, r.ret, r.consumed))
+    (runSliced (simpleCoder (CoderBcj.bcjFilter .x86 false) (machineSrc rle) 10) true
+      [(3, 2), (1, 1), (0, 5), (2, 0), (5, 3), (9, 2), (1, 1), (9, 1), (9, 9), (9, 9)]
+      (Run.init (Simple.init (Bcj.X86State.init, 0#32) (RleState.idle, false)) [2, 0xE8, 1, 0x05, 1, 0x00, 1, 0x01, 1, 0x00, 4, 9]))
+    = ([0xE8, 0xE8, 0xFA, 0xFF, 0xFE, 0x00, 9, 9, 9, 9], .streamEnd, 12) := by decide +kernel
+
+/-- … and the bound hypothesis `hb` holds there: the next coder comes to rest after writing 10 bytes, so everything it can ever have
+    written is a prefix of those (`bound_of_quiescent`) -/
+example : ∀ D st eof rest, Reach rle true RleState.idle false [2, 0xE8, 1, 0x05, 1, 0x00, 1, 0x01, 1, 0x00, 4, 9] D st eof rest →
+    D.length < 2 ^ 32 - 5 := by
+  obtain ⟨h1, _, _, h4, _⟩ := exec_spec rle true true RleState.idle false [2, 0xE8, 1, 0x05, 1, 0x00, 1, 0x01, 1, 0x00, 4, 9] 100 []
+    (fun _ => ⟨rfl, rfl⟩)
+  have hr : (rle.exec true RleState.idle false [2, 0xE8, 1, 0x05, 1, 0x00, 1, 0x01, 1, 0x00, 4, 9] 100).2.ret = .streamEnd := by
+    decide +kernel
+  have hlen : (rle.exec true RleState.idle false [2, 0xE8, 1, 0x05, 1, 0x00, 1, 0x01, 1, 0x00, 4, 9] 100).2.out.length = 10 := by
+    decide +kernel
+  rw [h4] at hr
+  simp only [List.append_nil] at h1
+  exact bound_of_quiescent h1 (Or.inl ⟨_, retOf_streamEnd hr⟩) _ (by rw [hlen]; decide)
 
 /-! ## 4. Encoder determinism across thread counts, timeouts and schedules -/
 
